@@ -187,7 +187,7 @@ def _emptied(prop, case, f):
         if m.startswith("When appending, partitioning columns must match"):
             return True
         # the same refusal met through a kept handle (write_row_groups compares column names): exactly the partition columns are "only in new data"
-        if f.get("where") == "api.py:write_row_groups" and m.startswith("Column names of new data are") and "{" in m:
+        if f.get("where") in ("api.py:write_row_groups", "api.py:check_columns") and m.startswith("Column names of new data are") and "{" in m:
             named = set(m.split("{", 1)[1].split("}", 1)[0].replace("'", "").replace(" ", "").split(","))
             return named == set(f["partition_on"])
         return False
